@@ -128,7 +128,7 @@ def enumerate_cases(tier):
     quick = tier == "quick"
     # A: every single structure with operands over the operand lattice (depth 1)
     ops = opnds(RUNS, pairs=not quick)
-    ops3 = SMALL if quick else opnds(RUNS, pairs=False)
+    ops3 = SMALL if quick else opnds(RUNS, pairs=True)
     for s in structures(ops, ops3):
         yield "A", ["omath", [s]]
     # A': wrappers / property elements
@@ -162,6 +162,11 @@ def enumerate_cases(tier):
                         if not quick:
                             yield "D3", ["omath", [mk([mk2([n]), R("L")]), R(")")]]
     if not quick:
+        # B4: all 4-sequences over the bracket / radical / run sub-alphabet (pending-closer stack interplay)
+        Nq = [n for n in N1 if n[0] == "rad" or (n[0] == "r" and n[1] in ("L", ")", "]", "}", "(", "["))] + [["f", [R("L")], [R(")")]],
+                                                                                                             ["d", "[", "[", [[R("L")]]]]
+        for a, b, c, d in itertools.product(Nq, repeat=4):
+            yield "B4", ["omath", [a, b, c, d]]
         # E: depth 4 chains through the representative slots
         for k in KINDS:
             mk = positions(k)[-1]
@@ -169,7 +174,7 @@ def enumerate_cases(tier):
                 mk2 = positions(k2)[0]
                 for k3 in KINDS:
                     mk3 = positions(k3)[-1]
-                    for n in structs1[::3]:
+                    for n in structs1[::2]:
                         yield "E4", ["omath", [mk([mk2([mk3([n])])])]]
 
 
